@@ -196,15 +196,30 @@ def main(tier, replay=None):
             cases += crit_cases(rng, xs)
             for f in ERRWIN:
                 cases.append({'f': f, 'args': xs + [{'t': 'err', 'c': '#N/A'}]})
-    for _ in range(280 if quick else 15000):
+    for _ in range(280 if quick else 8000):
         cases += rand_cases(rng)
-    obs = fncases.observe(lib, cases, ranges=False)
+    part_no = [0]
+    samples = []
+
+    def judge(part):
+        """validate one batch and forget it (the thorough tier makes several hundred thousand observations)"""
+        for n, o in enumerate(part, 1):
+            o['id'] = n
+        v = core.validate_obs(run, 'Trace_Eval', part, 'p%d' % part_no[0], consts)
+        part_no[0] += 1
+        core.tally(run, part, v, 'c11', key=lambda o: o['formula'] + json.dumps(o['env']['vars'], sort_keys=True),
+                   nontrivial=lambda o: len(json.dumps(o['env']['vars'])) > 60 or len(o['formula']) > 12)
+        if len(samples) < 2 and len(part) > 40:
+            samples.append({'formula': part[40]['formula'], 'vars': part[40]['env']['vars'], 'out': part[40]['out']['res']})
+
+    CASES = 12000
+    for k in range(0, len(cases), CASES):
+        judge(fncases.observe(lib, cases[k:k + CASES], ranges=False))
     # the host edits its lists in place between two evaluations of the same call
     mo = fncases.observe_after_mutation(lib, cases[::7][:800 if quick else 30000])
-    for o in mo:
-        o['id'] = len(obs) + 1
-        obs.append(o)
     run.extra['evaluations_after_in_place_edit'] = len(mo)
+    judge(mo)
+    obs = []
     so = suite.observations({'SUM','PRODUCT','AVERAGE','MIN','MAX','COUNT','MEDIAN','MODE','MODE.SNGL','VAR','VAR.S','VARP','VAR.P','AVEDEV','HARMEAN','LARGE','SLOPE','SUMIF','COUNTIF','AVERAGEIF','SUMIFS','AVERAGEIFS','MAXIFS'}, len(obs) + 1)   # the same functions as the repository's own tests call them
     run.extra['calls_from_repository_tests'] = len(so)
     obs += so
@@ -241,12 +256,7 @@ def main(tier, replay=None):
         o['out'] = {'keys': ['error', 'result'], 'res': enc(True), 'err': '', 'errkind': 'none'}
         o['checks'] = ['value']
         obs.append(o)
-    CH = 25000
-    for k in range(0, len(obs), CH):
-        part = obs[k:k + CH]
-        v = core.validate_obs(run, 'Trace_Eval', part, 'p%d' % (k // CH), consts)
-        core.tally(run, part, v, 'c11', key=lambda o: o['formula'] + json.dumps(o['env']['vars'], sort_keys=True),
-                   nontrivial=lambda o: len(json.dumps(o['env']['vars'])) > 60 or len(o['formula']) > 12)
+    judge(obs)
     run.exhaustive = True
-    run.samples = [{'formula': o['formula'], 'vars': o['env']['vars'], 'out': o['out']['res']} for o in (obs[40], obs[-1])]
+    run.samples = samples
     return run.finish()
